@@ -244,6 +244,37 @@ func toolAspects(full bool) []aspect {
 	return out
 }
 
+// manyToolAspects: messages that carry many tool-call fragments at once (a model that plans a dozen calls in one
+// turn). Sorting / grouping code has size thresholds (Go's sort switches algorithm above 12 elements): two of
+// these symbols together put 14-21 fragments into one concatenation, with and without an index, arguments all
+// distinct so that any permutation shows.
+func manyToolAspects() []aspect {
+	run := func(tag string, n int, idx func(k int) int) aspect {
+		var fr []schema.ToolCall
+		for k := 0; k < n; k++ {
+			fr = append(fr, tc(idx(k), "", "", "", fmt.Sprintf("%s%d,", tag, k)))
+		}
+		a := toolAspect(fr...)
+		a.label = fmt.Sprintf("tools{%d fragments %s: %s .. %s}", n, tag, tcLabel(fr[0]), tcLabel(fr[n-1]))
+		return a
+	}
+	none := func(int) int { return -1 }
+	return []aspect{
+		{label: "tools{}"},
+		run("n", 7, none),                              // seven fragments without an index
+		run("m", 7, none),                              // seven more
+		run("i", 7, func(k int) int { return k }),      // indexes 0..6 ascending
+		run("j", 7, func(k int) int { return 12 - k }), // indexes 12..6 descending (6 is shared with the run above)
+		run("x", 7, func(k int) int { // alternating: without an index / indexes 20, 19, 18
+			if k%2 == 0 {
+				return -1
+			}
+			return 20 - k/2
+		}),
+		toolAspect(tc(-1, "", "", "", "s,")),
+	}
+}
+
 func usage(p, c, t int) *schema.TokenUsage {
 	return &schema.TokenUsage{PromptTokens: p, CompletionTokens: c, TotalTokens: t}
 }
@@ -500,6 +531,7 @@ func families() []family {
 		msgFamily("msg-meta", false, 3, 4, metaAspects(true)),
 		msgFamily("msg-extra", false, 3, 4, extraAspects(true)),
 		msgFamily("msg-tools", false, 3, 4, toolAspects(true)),
+		msgFamily("msg-manytools", false, 3, 4, manyToolAspects()),
 	}
 	// pairwise mixes of reduced aspects (+ the nil message)
 	red := []struct {
